@@ -44,10 +44,10 @@ def ops(tier: str) -> List[tuple]:
     out = [_op("stop")]
     for f in (-5, 0, 0.4, 440, 1000.5):
         out.append(_op("play_tone", f))
-        for d in (0, 1, 50):
+        for d in (0, 1, 50, -20):
             out.append(_op("play_tone", f, d))
     for f in (None, -5, 0, 440):
-        for on, off, times in ((100, 100, 1), (0, 0, 2), (7, 3, 3), (5, 0, 2), (10, 10, 0), (10, 10, -1), (40, 0, 3)):
+        for on, off, times in ((100, 100, 1), (0, 0, 2), (7, 3, 3), (5, 0, 2), (10, 10, 0), (10, 10, -1), (40, 0, 3), (-5, 4, 2), (6, -3, 2), (-2, -2, 3)):
             kw = {"on_ms": on, "off_ms": off, "times": times}
             out.append(_op("beep", *([] if f is None else [f]), **kw))
     out.append(_op("beep"))
@@ -367,7 +367,7 @@ def check_call(op, events: List[tuple], getters: List[str], st: dict) -> Optiona
             err = silent_end()
             if err:
                 return err
-            if abs(total_delay - int(dur)) > 0:
+            if total_delay != max(0, int(dur)):  # (a negative duration is no wait at all: every sound is bounded)
                 return f"play_tone(.., {dur}) waited {total_delay} ms"
             st["cur"] = 0.0
         elif f > 0 and sounding != _round_tone(f):
@@ -395,8 +395,8 @@ def check_call(op, events: List[tuple], getters: List[str], st: dict) -> Optiona
                 while i < len(events) and events[i][0] == "delay":
                     got_on += events[i][1]
                     i += 1
-                if got_on != int(on):
-                    return f"beep on-gap {got_on} ms, expected {on}"
+                if got_on != max(0, int(on)):
+                    return f"beep on-gap {got_on} ms, expected {max(0, int(on))}"
                 if i >= len(events) or events[i][0] != "notone":
                     return "beep: tone not followed by noTone"
                 i += 1
@@ -404,7 +404,7 @@ def check_call(op, events: List[tuple], getters: List[str], st: dict) -> Optiona
                 while i < len(events) and events[i][0] == "delay":
                     got_off += events[i][1]
                     i += 1
-                want_off = int(off) if b + 1 < n else 0
+                want_off = max(0, int(off)) if b + 1 < n else 0
                 if got_off != want_off:
                     return f"beep off-gap after beep {b} is {got_off} ms, expected {want_off}"
             if n > 0:
